@@ -1,0 +1,41 @@
+//go:build verif
+
+package sliceutils
+
+// Contracts for the deductive checker in /verif (comment-only; compiled only under the verif tag).
+// The higher-order helpers are specified through the function value they are given: f(x) in a contract is the
+// result of calling that function value on x.
+
+//@ func Any
+//@   property C18, C16, C02
+//@   purefn
+//@   ensures result <==> (exists j int :: 0 <= j && j < len(xs) && predicate(xs[j]))
+//@   loop range(xs)
+//@     invariant forall j int :: 0 <= j && j < $i ==> !predicate(xs[j])
+
+//@ func All
+//@   property C18, C16, C02
+//@   purefn
+//@   ensures result <==> (forall j int :: 0 <= j && j < len(xs) ==> predicate(xs[j]))
+//@   loop range(xs)
+//@     invariant forall j int :: 0 <= j && j < $i ==> predicate(xs[j])
+
+//@ func MapOrError
+//@   property C18, C16, C02
+//@   ensures err == nil ==> len(out) == len(in) && (forall j int :: 0 <= j && j < len(in) ==> out[j] == res(f(in[j]), 0) && res(f(in[j]), 1) == nil)
+//@   ensures err != nil ==> exists j int :: 0 <= j && j < len(in) && res(f(in[j]), 1) != nil
+//@   loop range(in)
+//@     invariant len(out) == len(param(in))
+//@     invariant forall j int :: 0 <= j && j < i ==> out[j] == res(f(param(in)[j]), 0) && res(f(param(in)[j]), 1) == nil
+
+// Map and MapCast go through iter.Seq adapters (iterutils.Map, slices.Values, slices.Collect), which the checker
+// does not model; the element-wise contract is assumed.
+//@ func Map
+//@   assumed
+//@   purefn
+//@   ensures len(result) == len(in) && (forall j int :: 0 <= j && j < len(in) ==> result[j] == f(in[j]))
+
+//@ func MapCast
+//@   assumed
+//@   purefn
+//@   ensures len(result) == len(in) && (forall j int :: 0 <= j && j < len(in) ==> result[j] == f(in[j]))
